@@ -98,3 +98,18 @@ fn neg_running_step() {
     // deliberately false: detector field changes are only a warning, not an error
     assert!(!(r.is_ok() && s_pages_counter(&b) != 0 && s_detector_field(&b) != s_detector_field(&last)), "[NEG] deliberately false");
 }
+
+// @harness id=full_running_nopanic props=C04 kind=full tier=quick fns=RdhCruRunningChecker::check stubs=core::fmt::write,alloc::fmt::format
+// No precondition at all: any checker state, any header (exposes machine-arithmetic wrap of the page counter).
+#[kani::proof]
+#[kani::stub(core::fmt::write, stub_fmt_write)]
+#[kani::stub(alloc::fmt::format, stub_format_nonempty)]
+#[kani::unwind(4)]
+fn full_running_nopanic() {
+    let n: u8 = kani::any();
+    kani::assume(n <= 2);
+    let last: [u8; 64] = kani::any();
+    let mut c = any_state(n, &last, kani::any(), kani::any());
+    let b: [u8; 64] = kani::any();
+    let _ = c.check(&rdh_from(&b));
+}
